@@ -22,11 +22,13 @@ META = dict(
                "regenerated from the source on every run (c24_pool_discipline is stated over that constant). Not proved: real "
                "interleavings, the C++ memory model, races in state outside the model - these are runtime behaviour a Gallina "
                "model cannot exhibit; they are searched with ThreadSanitizer and concurrent runs compared with solo runs.",
-    level_note="Today the source has no synchronisation (locked = false): the `else` branch of c24_pool_discipline (refutation) is "
-               "what is proved, and the check reports the race it exhibits on the implementation as a finding. Trusted: Coq "
-               "kernel, vm_compute for the witness schedule, extraction, ocaml/conc_driver.ml, translate/pool_sync.py (pattern "
-               "recognition of the two method bodies), harness/h_threads.cc, ThreadSanitizer, z3 (oracle, notes only). The "
-               "micro-steps are modelled as atomic (under-approximation of the unlocked C++; irrelevant under a lock).",
+    level_note="Which branch of c24_pool_discipline is the proved one follows the source: with the mutex in alloc/release (/repo bb7baf6) the "
+               "translator gives locked = true and the theorem is the safety statement for all programs and schedules; on the tree before "
+               "that commit it was the refutation and the check reported the ThreadSanitizer race as a finding (known_findings/C24.json, now "
+               "`fixed`, as are Enode::cgid_ctr 2b5a804 and the LASolver cut counter c55bb6a). Trusted: Coq kernel, vm_compute for the "
+               "witness schedule, extraction, ocaml/conc_driver.ml, translate/pool_sync.py (pattern recognition of the two method bodies), "
+               "harness/h_threads.cc, ThreadSanitizer, z3 (oracle, notes only). The micro-steps are modelled as atomic "
+               "(under-approximation of unlocked C++; irrelevant under a lock).",
     design_ref="DESIGN.md §7 C24, design/C24.md",
     trusted_base=["Coq 8.16.1 kernel; vm_compute in pool_race_unlocked / examples",
                   "extraction: Require Import ExtrOcamlBasic ExtrOcamlString; no Extract Constant / Extract Inductive of our own",
